@@ -31,4 +31,15 @@ PROPS = {
         "required_roots": ["wav/pcm_16/file", "aiff/ima_adpcm/file", "voc/ulaw/file", "svx/pcm_16/file", "sds/pcm_16/file"],
         "assumptions": COMMON_ASSUME + ["block length, pad rule and sample-rate representability per container are the independent traits table engine/fmt.c"],
     },
+    "C07": {
+        "harness": "h_rt", "level": "exploration", "variants": ["asan", "fast"],
+        "technique": "deviation-bounded exhaustive enumeration of write partitions (split points, item/frame variant, header update, perturbed heap/stack) on the real library; byte-identity oracle against the single-call execution",
+        "level_text": "every partition with at most 2 (thorough: 3) extra split points from the block/staging boundary set, every single frames-variant / update-header deviation and two perturbed re-runs are executed on the real library and the complete file bytes compared with the single-call file; run on an ASan and on an uninstrumented build (where stale heap/stack content is visible)",
+        "level_note": "clock pinned (PEAK timestamps comparable); 3 generators; channels {1,2}; split points outside the boundary set and more than 3 splits are not explored",
+        "rule": "catalogue format x ch{1,2} x caller type x generator x partition: default = one sf_write_T call; deviations = split points from {1,2,3,B-1,B,B+1,2B-1,2B,2B+1,S-1,S,S+1,N-1}, sf_writef_T for a segment, SFC_UPDATE_HEADER_NOW after a segment, re-run with perturbed heap and stack. non-trivial = every case (all write N>B frames)",
+        "bounds": {"quick": "<=2 split points; endian {file,be}; generators 2,3 only for short/float", "thorough": "<=3 split points, combined deviations, endian {file,le,be}, all generators x types"},
+        "deadline": {"quick": 280, "thorough": 2400},
+        "required_roots": ["wav/ima_adpcm/file", "wav/ms_adpcm/file", "caf/alac_16/file", "raw/gsm610/file", "au/g721_32/file", "xi/dpcm_16/file"],
+        "assumptions": COMMON_ASSUME,
+    },
 }
